@@ -363,7 +363,7 @@ func runDNSCase(run *ev.Run, fd *fakeDNS, cs dnsCase) {
 			fam = "v4-only"
 		}
 		run.Class(fmt.Sprintf("dns/%s/ttl-%s/%s", fam, cs.TTL, cs.Via))
-		if len(order)%7 == 0 {
+		{
 			run.Sample(map[string]any{"case": cs, "dial_calls": len(order), "first_attempts": recs[:min(6, len(recs))]})
 		}
 	}
@@ -526,6 +526,9 @@ func runConnectToCase(run *ev.Run, cs ctCase) {
 	}
 	b, _ := json.Marshal(cs)
 	run.Distinct(string(b))
+	if cs.Callers > 1 && len(all) <= 40 {
+		run.Sample(map[string]any{"connect_to_case": cs, "history": all})
+	}
 	run.Class(fmt.Sprintf("connect-to/k%d/callers-%s", len(addrs), map[bool]string{true: "1", false: "many"}[cs.Callers == 1]))
 }
 
